@@ -29,6 +29,16 @@ class archive(dict):
         if name is not None:
             adict.__state__['id'] = name
         return adict
+    def __eq__(self, y):
+        try: # compare contents (a persistent archive keeps nothing in its dict)
+            if y.__module__ != self.__module__: return NotImplemented
+            return self.__asdict__() == y.__asdict__()
+        except: return NotImplemented
+    __eq__.__doc__ = dict.__eq__.__doc__
+    def __ne__(self, y):
+        y = self.__eq__(y)
+        return NotImplemented if y is NotImplemented else not y
+    __ne__.__doc__ = dict.__ne__.__doc__
     def popkeys(self, keys, *value):
         """    D.popkeys(k[,d]) -> v, remove specified keys and return corresponding values.
     If key in keys is not found, d is returned if given, otherwise KeyError is raised."""
